@@ -1038,5 +1038,12 @@ pub fn run_scenario(sc: &Scenario, decisions: Option<&[Decision]>) -> Outcome {
         Storage::Real { .. } => panic!("real backends run through run_real"),
     };
     restore_cpus(old);
+    let mut out = out;
+    if let Some(f) = out.failure.as_mut() {
+        // KF-C06-1: a dependency cycle that passes through a firewall
+        if f.known.is_none() && sc.cfg.cyclic && sc.program.static_cycle_through_firewall() {
+            f.known = Some("KF-C06-1".into());
+        }
+    }
     out
 }
